@@ -163,4 +163,50 @@ theorem accepted_iat_batch_totals_and_hash (c : Ctx) (cp p : String) (n : Nat) (
     (iat_calculateBatchAmounts_spec c p n tc am hE ht ham) hA
   exact ⟨t1, t2, iat_isEntryHash_accepts c cp _ e hC he (iat_calculateEntryHash_spec c p n r hv hE hr hc) hHh⟩
 
+
+/-! ## the IAT entry's check digit -/
+
+def iatCheckDigitTail : List Prog :=
+  [(.bind "calculated" (.call1 "CalculateCheckDigit" (.call2 "stringField" (.fld "RDFIIdentification") (.int 8)))),
+   (.bind2 "edCheckDigit" "err" (.call1 "strconv.Atoi" (.fld "CheckDigit"))),
+   (.ite (.ne (.var "err") .nil) (.ret (.wrapErr "CheckDigit" (.nonNil (.var "err")))) .skip),
+   (.ite (.ne (.var "calculated") (.var "edCheckDigit")) (.ret (.mkErr "RDFIIdentification")) .skip),
+   (.ret .nil)]
+
+theorem iat_entry_validate_ends_with_check_digit :
+    stmts v_IATEntryDetail_Validate = Ach.Props.Accepted.frontOf v_IATEntryDetail_Validate 5 ++ iatCheckDigitTail ∧
+    (Ach.Props.Accepted.frontOf v_IATEntryDetail_Validate 5).all (fun q => rejectOnly q && noAssign q) = true := by
+  decide +kernel
+
+/-- C03, IAT — every IAT entry value on which `IATEntryDetail.Validate()` (translated from the source on this run) returns
+nil carries the check digit computed from the first eight characters of its routing number (no option switches this off
+for IAT entries) -/
+theorem accepted_iat_entry_check_digit (c : Ctx) (rdfi cd : Str)
+    (hr : lookup c.fields (joinPath c.recv "RDFIIdentification") = .str rdfi)
+    (hc : lookup c.fields (joinPath c.recv "CheckDigit") = .str cd)
+    (ha : run c v_IATEntryDetail_Validate = .accept) :
+    atoi cd = some (calculateCheckDigit (stringField rdfi 8)) := by
+  have hres := Ach.Props.Validators.accept_ret c _ ha
+  obtain ⟨hs, hall⟩ := iat_entry_validate_ends_with_check_digit
+  obtain ⟨pre, h⟩ := accept_reaches c _ _ _ hs (by simp [iatCheckDigitTail]) hall hres
+  have h8 : builtin2 "stringField" (Val.str rdfi) (Val.int 8) = .str (stringField rdfi 8) := by simp [builtin2]
+  have hcalc : ∀ s : Str, builtin1 c.ext "CalculateCheckDigit" (Val.str s) = .int (calculateCheckDigit s) := by
+    intro s; simp [builtin1]
+  cases hat : atoi cd with
+  | none =>
+      have hatoi : builtin1 c.ext "strconv.Atoi" (Val.str cd) = .pair (.int 0) (.err (some "")) := by simp [builtin1, hat]
+      simp [iatCheckDigitTail, seqs, exec, eval, hr, hc, h8, hcalc, hatoi, lookup, cmpVals, scopeExit] at h
+  | some v =>
+      by_cases hb : 18 < (signSplit cd).2.length ∧ (v = maxInt64 ∨ v = minInt64)
+      · have hatoi : builtin1 c.ext "strconv.Atoi" (Val.str cd) = .bad := by
+          simp [builtin1, hat]
+          grind
+        simp [iatCheckDigitTail, seqs, exec, eval, hr, hc, h8, hcalc, hatoi, scopeExit] at h
+      · have hatoi : builtin1 c.ext "strconv.Atoi" (Val.str cd) = .pair (.int v) (.err none) := by
+          simp [builtin1, hat]
+          grind
+        by_cases heq : calculateCheckDigit (stringField rdfi 8) = v
+        · rw [heq]
+        · simp [iatCheckDigitTail, seqs, exec, eval, hr, hc, h8, hcalc, hatoi, lookup, cmpVals, scopeExit, heq] at h
+
 end Ach.Props.AcceptedIAT
